@@ -54,7 +54,18 @@ def coq_op(o):
         return "ZNext"
     if k == "ratio":
         return f"ZSetRatio {F.zlit(o[1])}"
+    if k == "hz":
+        return f"ZSetHz {F.zlit(o[1])} {F.zlit(o[2])}"
+    if k == "srate":
+        return f"ZSetSample {F.zlit(o[1])}"
+    if k in CONV_PLAIN_OPS:
+        return CONV_PLAIN_OPS[k]
+    if k == "rebuild":
+        return f"ZRebuild {o[1]} {F.zlit(o[2])} {F.zlit(o[3])}"
     raise ValueError(k)
+
+
+CONV_PLAIN_OPS = {"src": "ZSource", "srcpull": "ZSrcPull", "exh": "ZIsExh", "acc": "ZAcc"}
 
 
 def build(item, ops=None):
@@ -159,6 +170,162 @@ def gen_conv(r, depth, nout, fmt=None, ch=None, ratio=None, full_scale=False, ta
     return dict(kind="V", fmt=fmt, ch=ch, depth=depth, ratio=b64(ratio), source=source, ops=ops, tag=tag)
 
 
+# ---- Converter setters / accessors between outputs (coq/theories/Dsp/SincConv.v) ----
+# Model semantics: a setter changes the ratio and NOTHING else, whatever the accumulator holds; source(), source_mut()
+# (without a pull), is_exhausted() change nothing.  The ratios are mostly dyadic so that the accumulator visits every
+# phase at the moment of a call: 0 (before the first output), fractional, exactly 1.0 (one whole source frame pending:
+# the state between any two outputs at ratio 1), above 1 (integer and not).  Re-announcing the ratio already in force
+# (a no-op) is generated as often as a change, through all three setters.
+SET_RATIOS = [1.0, 1.0, 0.5, 0.25, 0.75, 1.5, 2.0, 2.5, 3.0, 1.25, 1.0 / 3.0, 0.1, 44100.0 / 48000.0]
+HZ_BASES = [44100.0, 48000.0, 8.0, 1.0, 0.3, 96000.0, 22050.0]
+
+
+def announce(r, ratio, how=None):
+    """one of the three public ways of announcing `ratio`; the quotient the crate will form is checked here to be
+    exactly `ratio` in binary64 (otherwise set_playback_hz_scale is used)"""
+    how = r.below(3) if how is None else how
+    if how == 1:
+        base = r.choice(HZ_BASES)
+        if M.fdiv(ratio * base, base) == ratio:
+            return ["hz", b64(ratio * base), b64(base)]
+    if how == 2:
+        inv = M.fdiv(1.0, ratio)
+        if M.fdiv(1.0, inv) == ratio:
+            return ["srate", b64(inv)]
+    return ["ratio", b64(ratio)]
+
+
+ODD_RATES = [44100.0, 48000.0, 22254.54, 37800.0, 96000.0, 88200.0, 32000.0, 44056.0, 48000.0 * 1.001, 50400.0]
+ODD_SCALES = [0.3, 0.7, 1.1, 3.0, 48000.0 / 44100.0, 1.0 / 3.0, 0.9, 2.2]
+
+
+def odd_setter(r):
+    """a setter with arguments whose quotient is NOT pre-checked: set_hz_to_hz over unusual rate pairs, set_sample_hz_scale
+    with a scale whose reciprocal is inexact; returns (op, the ratio binary64 division gives)"""
+    if r.chance(1, 2):
+        a, b = r.choice(ODD_RATES), r.choice(ODD_RATES)
+        return ["hz", b64(a), b64(b)], a / b
+    x = r.choice(ODD_SCALES)
+    return ["srate", b64(x)], 1.0 / x
+
+
+def as_rebuild(o):
+    return ["rebuild", 1, o[1], o[2]] if o[0] == "hz" else ["rebuild", 2, o[1], 0] if o[0] == "srate" else ["rebuild", 0, o[1], 0]
+
+
+def rebuild_op(r, ratio):
+    """into_source() + one of the three constructors giving `ratio` (checked as in `announce`)"""
+    o = announce(r, ratio)
+    if o[0] == "hz":
+        return ["rebuild", 1, o[1], o[2]]
+    if o[0] == "srate":
+        return ["rebuild", 2, o[1], 0]
+    return ["rebuild", 0, o[1], 0]
+
+
+def gen_conv_ops(r, depth, nout, fmt=None, ch=None, unit=False, full_scale=False, tag="Vset"):
+    """a converter driven by `next` with setter / accessor / rebuild calls between the outputs; unit: the ratio is
+    exactly 1 throughout and every setter call re-announces it"""
+    fmt = r.choice([0, 1, 2] + ALL_FMTS) if fmt is None else fmt
+    ch = r.choice([1, 2]) if ch is None else ch
+    ratio = 1.0 if unit else r.choice(SET_RATIOS)
+    nsrc = r.choice([0, 1, depth, 2 * depth + 1, int(nout * ratio) + 2, int(nout * ratio) + 2])
+    source = [rnd_frame(r, fmt, ch, full_scale=full_scale, wide=True) for _ in range(nsrc)]
+    cur = ratio
+    ops = []
+    if r.chance(1, 6):                        # constructed through one of the other constructors
+        ops.append(rebuild_op(r, cur))
+    for _ in range(nout):
+        if r.chance(3, 5):
+            for _ in range(r.range(1, 2)):
+                c = r.below(14)
+                if c < 5:                     # the ratio in force, announced again
+                    ops.append(announce(r, cur))
+                elif c < 7 and not unit:      # a new ratio
+                    if r.chance(1, 3):
+                        o, cur = odd_setter(r)
+                        ops.append(o)
+                    else:
+                        cur = r.choice(SET_RATIOS)
+                        ops.append(announce(r, cur))
+                elif c < 9:
+                    ops.append(["acc"])
+                elif c == 9:
+                    ops.append(["src"])
+                elif c == 10:
+                    ops.append(["exh"])
+                elif c == 11 and not unit:
+                    ops.append(["srcpull"])
+                elif c == 12 and not unit:
+                    if r.chance(1, 2):
+                        o, cur = odd_setter(r)
+                        ops.append(as_rebuild(o))
+                    else:
+                        cur = r.choice(SET_RATIOS)
+                        ops.append(rebuild_op(r, cur))
+                else:
+                    ops.append(announce(r, cur, how=1))
+        ops.append(["next"])
+    ops.append(["acc"])
+    ops.append(["exh"])
+    return dict(kind="V", fmt=fmt, ch=ch, depth=depth, ratio=b64(ratio), source=source, ops=ops, tag=tag)
+
+
+def with_reannouncements(r, item):
+    """a ratio-1 delay case with calls that must not be visible inserted between the outputs: the same rates announced
+    again (all three setters), source(), is_exhausted(), the accumulator hook -- while priming, once primed and after the
+    ring buffer has wrapped around"""
+    d, n = item["depth"], len(item["ops"])
+    at = {1, r.range(1, max(1, d)), d + r.range(1, d + 2), 2 * d + r.range(1, d + 3), r.range(1, n - 1), r.range(1, n - 1)}
+    ops = []
+    for k in range(n):
+        if k in at:
+            ops.append(announce(r, 1.0, how=r.choice([0, 1, 1, 1, 2])))
+            if r.chance(1, 3):
+                ops.append(r.choice([["src"], ["exh"], ["acc"]]))
+        ops.append(["next"])
+    return dict(item, ops=ops, sub="reannounce")
+
+
+def conv_op_phases(item):
+    """replays the accumulator arithmetic of a converter case in binary64: for every non-`next` operation the phase of
+    the accumulator at the call (zero, frac, one, above1) and whether a setter re-announces the ratio in force"""
+    out = []
+    if item["kind"] != "V":
+        return out
+    ival, ratio = 0.0, M.f64_of_bits(item["ratio"])
+    for op in item["ops"]:
+        k = op[0]
+        if k == "next":
+            if not ival < 1e6:
+                break
+            while ival >= 1.0:
+                ival -= 1.0
+            ival += ratio
+            continue
+        phase = "zero" if ival == 0.0 else "frac" if ival < 1.0 else "one" if ival == 1.0 else "above1"
+        new = None
+        if k == "ratio":
+            new = M.f64_of_bits(op[1])
+        elif k == "hz":
+            new = M.fdiv(M.f64_of_bits(op[1]), M.f64_of_bits(op[2]))
+        elif k == "srate":
+            new = M.fdiv(1.0, M.f64_of_bits(op[1]))
+        elif k == "rebuild":
+            new = M.ctor_scale(op[1], op[2], op[3])
+            out.append((k, phase, "ctor"))
+            if not new > 0.0:
+                break
+            ival, ratio = 0.0, new
+            continue
+        if new is None:
+            out.append((k, phase, "-"))
+        else:
+            out.append((k, phase, "same" if new == ratio else "new"))
+            ratio = new
+    return out
+
+
 def level_sample(r, fmt, level):
     """float sample at an extreme level: 'tiny' (f32: peak 2^-130..2^-120, i.e. around and below MIN_POSITIVE;
     f64: subnormal) or 'huge' (f32 ~1e38, f64 ~1e300)"""
@@ -191,6 +358,11 @@ def gen_coq_cases(rng, tier):
             items.append(gen_direct(r, depth, r.range(2, 2 * budget), full_scale=fs))
         else:
             items.append(gen_conv(r, depth, r.range(2, budget), full_scale=fs))
+    # the Converter's setters / accessors / constructors called between outputs, at every phase of the accumulator
+    for k in range(90 if tier == "quick" else 1000):
+        r = rng.fork(f"cset{k}")
+        depth = r.choice([1, 1, 2, 2, 3, 4])
+        items.append(gen_conv_ops(r, depth, r.range(3, max(4, 18 // depth)), unit=(k % 3 == 0), full_scale=r.chance(1, 10)))
     # a few deep ones with a single fractional evaluation in the priming phase and one primed
     for depth in ([9, 16, 32, 64] if tier == "quick" else [9, 12, 16, 24, 32, 48, 64]):
         r = rng.fork(f"deep{depth}")
@@ -229,6 +401,10 @@ def gen_py_cases(rng, tier):
             items.append(gen_direct(r, depth, r.range(3, 3 * depth + 12), full_scale=fs, tag="Dpy"))
         else:
             items.append(gen_conv(r, depth, r.range(3, 2 * depth + 12), full_scale=fs, tag="Vpy"))
+    for k in range(n // 4):
+        r = rng.fork(f"pyset{k}")
+        depth = r.choice([1, 2, 3, 4, 5, 7, 8, 13, 16, 31, 32, 33, 63, 64, r.range(1, 64), r.range(1, 64)])
+        items.append(gen_conv_ops(r, depth, r.range(3, 2 * depth + 12), unit=(k % 3 == 0), full_scale=r.chance(1, 10), tag="Vsetpy"))
     return [build(it) for it in items]
 
 
@@ -270,6 +446,10 @@ def gen_delay(rng, tier):
                 source = [[level_sample(r, fmt, level) for _ in range(ch)] for _ in range(L)]
                 items.append(dict(kind="V", fmt=fmt, ch=ch, depth=d, ratio=b64(1.0), source=source, ops=[["next"]] * (L + d + 3),
                                   tag="delay", level=level))
+    # the same streams once more with the unchanged rates announced again mid-stream (and the accessors called): still
+    # a pure delay by exactly depth frames
+    rr = rng.fork("reannounce")
+    items += [with_reannouncements(rr.fork(str(i)), it) for i, it in enumerate(items) if tier != "quick" or i % 2 == 0 or it["depth"] <= 4]
     return [build(it) for it in items]
 
 
@@ -405,6 +585,20 @@ def trace(item):
             if op[0] == "ratio":
                 ratio = M.f64_of_bits(op[1])
                 continue
+            if op[0] != "next":
+                # the other Converter operations (setters: only the ratio changes; rebuild: fresh interpolator, position 0)
+                if op[0] == "hz":
+                    ratio = M.fdiv(M.f64_of_bits(op[1]), M.f64_of_bits(op[2]))
+                elif op[0] == "srate":
+                    ratio = M.fdiv(1.0, M.f64_of_bits(op[1]))
+                elif op[0] == "rebuild":
+                    ratio = M.ctor_scale(op[1], op[2], op[3])
+                    if not ratio > 0.0:
+                        break
+                    s, ival = M.Sinc(item["fmt"], item["ch"], item["depth"], so, co), 0.0
+                continue
+            if not ival < 1e6:
+                break
             while ival >= 1.0:
                 s.next_source_frame([0] * item["ch"])
                 ival -= 1.0
@@ -436,11 +630,17 @@ def in_k5_class(item, op_index):
         x = M.f64_of_bits(item["ops"][op_index][1])
     else:
         c = M.Converter([[dec(z) for z in fr] for fr in item["source"]], s, M.f64_of_bits(item["ratio"]))
-        for op in item["ops"][:op_index]:
-            if op[0] == "ratio":
-                c.ratio = M.f64_of_bits(op[1])
-            else:
-                c.next()
+        try:
+            for op in item["ops"][:op_index]:
+                if op[0] == "ratio":
+                    c.ratio = M.f64_of_bits(op[1])
+                elif op[0] != "next":
+                    M.apply_conv_op(c, op, item, s.sin_o, s.cos_o)
+                    s = c.itp
+                else:
+                    c.next()
+        except M.Panic:
+            return False          # the model fails BEFORE this operation: the implementation's panic here is not the model's
         while c.ival >= 1.0:
             fr = c.src[c.pulls] if c.pulls < len(c.src) else [F_["equil"]] * item["ch"]
             c.pulls += 1
@@ -600,9 +800,17 @@ def main(rep, tier, seed):
             # 64-bit integers and floats: 1e-12 of the peak amplitude
             exact = isint and F_["bits"] <= 48
             d = it["depth"]
-            for j, o in enumerate(obs):
+            j = -1
+            for i, o in enumerate(obs):
+                if it["ops"][i][0] != "next":
+                    # a call that must not be visible (same rates announced again, accessor): it may not fail
+                    if o[0] == 8:
+                        failures.append(("delay", it, f"op {i} {it['ops'][i]} is {o}"))
+                        break
+                    continue
+                j += 1
                 verdicts["delay"] += 1
-                if o[:2] == [8, 1] and in_k5_class(it, j):
+                if o[:2] == [8, 1] and in_k5_class(it, i):
                     break                                                   # known finding K5 (64-bit integers at the rails)
                 if o[0] != 1:
                     failures.append(("delay", it, f"output {j} is {o}"))
@@ -676,6 +884,14 @@ def main(rep, tier, seed):
         nviol += 1
         rep.violation(f"verdict_{kind}{nviol}", {"kind": f"numeric verdict failed: {kind}", "what": msg, "case": case_public(it),
                                                  "harness_line": it["line"], "replay": "./check.py C18 --replay <this file>"})
+    # Converter operations between outputs: which operation met which phase of the accumulator (all generated cases)
+    conv_ops = {}
+    for it in items:
+        for k, phase, what in conv_op_phases(it):
+            key = f"{k}:{phase}" + ("" if what == "-" else f":{what}")
+            conv_ops[key] = conv_ops.get(key, 0) + 1
+    stats["converter_ops_by_accumulator_phase"] = dict(sorted(conv_ops.items()))
+    stats["delay_cases_with_reannouncements"] = sum(1 for it in groups["delay"] if it.get("sub") == "reannounce")
     stats.update(dict(coq_evaluated_cases=len(coq_items), coq_disagreements=len(bad), corpus_cases=len(corpus),
                       transcription_cases=len(items), transcription_disagreements=len(py_bad),
                       interpolations=n_interp, verdict_checks=verdicts, verdict_failures=len(failures),
@@ -705,7 +921,8 @@ def finish(rep, info, stats, samples, counts):
         "tested_clauses": ["ratio-1 error <= 1e-12 * peak with glibc sin/cos and rounded PI", "linearity within rounding (f64 1e-12*scale, f32 (8 taps+4) ulp24*scale, i16 (1+|a|+|b|) LSB per tap)",
                            "finite output for finite input (|s| <= 1e300)", "constant input within 1 % once the buffer is full, depth >= 4 in the crate's rounded evaluation with libm (integers: + 1 LSB per tap truncation); proved on exact reals for depth 4..16 only",
                            "all fourteen sample formats (i8 i16 I24 i32 I48 i64 u8 u16 U24 u32 U48 u64 f32 f64), mono and stereo: ratio 1 reproduces the source delayed by depth BIT-EXACTLY for integer formats <= 48 bits including the rails MIN and MAX (64-bit integers and floats: 1e-12 of the peak amplitude; 64-bit rails fall in K5)",
-                           "float streams with tiny (f32 peak 2^-130..2^-120, f64 subnormal) and huge (1e38 / 1e300) peaks at ratio 1 relative to their peak; scaling H = k F with k in {2^-126, 2^-100, 2^100} commutes with interpolation within rounding"],
+                           "float streams with tiny (f32 peak 2^-130..2^-120, f64 subnormal) and huge (1e38 / 1e300) peaks at ratio 1 relative to their peak; scaling H = k F with k in {2^-126, 2^-100, 2^100} commutes with interpolation within rounding",
+                           "Converter operations between outputs (set_hz_to_hz, set_playback_hz_scale, set_sample_hz_scale, source, source_mut().next(), is_exhausted, into_source + each of the three constructors, the accumulator hook) at every phase of the accumulator (0, fractional, exactly 1.0 pending, above 1; input_distribution.converter_ops_by_accumulator_phase), re-announcing the ratio in force as often as changing it: compared bit for bit with the model whose setters change only the ratio; the ratio-1 delay streams are run a second time with the same rates announced again mid-stream (priming, primed, after the ring wrapped) and must still be the source delayed by exactly depth"],
         "evaluations": counts.get("n", 0), "distinct_nontrivial": counts.get("nontriv", 0),
         "rule": "non-trivial = depth >= 2 and an interpolation at a fractional position (x != 0) while 0 < idx < depth (priming phase) or after a reset; distinct harness lines counted",
         "samples": samples, "input_distribution": stats, "disagreements": counts.get("bad", 0),
